@@ -509,8 +509,12 @@ class World:
                 c.lost = True
 
     # ---- running ---------------------------------------------------------------------------
-    def run(self, program, max_steps=3_000_000, wrap=True, stuck_after=200_000):
-        """program: async def program(mpc, pid).  wrap=True: real start() before, real shutdown() after."""
+    def run(self, program, max_steps=3_000_000, wrap=True, stuck_after=200_000, extend=None):
+        """program: async def program(mpc, pid).  wrap=True: real start() before, real shutdown() after.
+        extend: when the step budget is exhausted under a biased policy, continue the *same* world under the plain uniform policy with ten times the
+        budget before giving the status STEP-LIMIT (a schedule that changes policy is still a fair schedule; byte-dribbling schedules legitimately need
+        orders of magnitude more steps).  Default: on, unless the caller passes an explicit max_steps (those callers run their own budget logic)."""
+        self._extend = (max_steps == 3_000_000) if extend is None else extend
         ns = self.ns
 
         async def main(pid):
@@ -538,8 +542,13 @@ class World:
         conns_to = None
         while not self._finished():
             if self.steps > max_steps:
-                self.status = 'STEP-LIMIT'
-                return
+                if getattr(self, '_extend', False) and not getattr(self, '_extended', False):
+                    self._extended = True
+                    policy = 'uniform'
+                    max_steps *= 10
+                else:
+                    self.status = 'STEP-LIMIT'
+                    return
             if conns_to is None or len(self.conns) != conns_to[0]:
                 by = collections.defaultdict(list)
                 for c in self.conns.values():
